@@ -16,33 +16,36 @@ from .model import AnalysisError, Program
 from .report import Check
 
 
-def apply(prog: Program, m: Dict[str, Any]) -> Optional[Dict[str, str]]:
-    rel = m['file']
-    mod = [x for x in prog.modules.values() if x.rel == rel]
-    if not mod:
-        return None
-    src = mod[0].source
+def _splice(src: str, m: Dict[str, Any]) -> Optional[str]:
     cnt = src.count(m['find'])
     nth = m.get('nth')
     if cnt == 0 or (nth is None and cnt != 1 and not m.get('all')):
         return None
     if m.get('all'):
-        new = src.replace(m['find'], m['replace'])
-    elif nth is None:
-        new = src.replace(m['find'], m['replace'], 1)
-    else:
-        idx = -1
-        for _ in range(nth + 1):
-            idx = src.find(m['find'], idx + 1)
-            if idx < 0:
-                return None
-        new = src[:idx] + m['replace'] + src[idx + len(m['find']):]
-    out = {rel: new}
-    for extra in m.get('also', []):
-        sub = apply(prog, extra)
-        if sub is None:
+        return src.replace(m['find'], m['replace'])
+    if nth is None:
+        return src.replace(m['find'], m['replace'], 1)
+    idx = -1
+    for _ in range(nth + 1):
+        idx = src.find(m['find'], idx + 1)
+        if idx < 0:
             return None
-        out.update(sub)
+    return src[:idx] + m['replace'] + src[idx + len(m['find']):]
+
+
+def apply(prog: Program, m: Dict[str, Any]) -> Optional[Dict[str, str]]:
+    out: Dict[str, str] = {}
+    for edit in [m] + list(m.get('also', [])):
+        rel = edit['file']
+        if rel not in out:
+            mod = [x for x in prog.modules.values() if x.rel == rel]
+            if not mod:
+                return None
+            out[rel] = mod[0].source
+        new = _splice(out[rel], edit)
+        if new is None:
+            return None
+        out[rel] = new
     return out
 
 
